@@ -25,10 +25,11 @@ type twinsJSON struct {
 	Seed       int64             `json:"seed"`
 	Scenarios  []json.RawMessage `json:"scenarios"`
 
+	mut      sync.Mutex // NextScenario is called from several worker goroutines
 	scenario int
 }
 
-func (t twinsJSON) Settings() Settings {
+func (t *twinsJSON) Settings() Settings {
 	return Settings{
 		NumNodes:   t.NumNodes,
 		NumTwins:   t.NumTwins,
@@ -41,6 +42,8 @@ func (t twinsJSON) Settings() Settings {
 }
 
 func (t *twinsJSON) NextScenario() (Scenario, error) {
+	t.mut.Lock()
+	defer t.mut.Unlock()
 	if t.scenario >= len(t.Scenarios) {
 		return nil, io.EOF
 	}
@@ -51,6 +54,8 @@ func (t *twinsJSON) NextScenario() (Scenario, error) {
 }
 
 func (t *twinsJSON) Remaining() int64 {
+	t.mut.Lock()
+	defer t.mut.Unlock()
 	return int64(len(t.Scenarios) - t.scenario)
 }
 
